@@ -428,8 +428,8 @@ def scan (l : List Char) : List Tok := scanAux 0 false l
 
 -- ------------------------------------------------------------------------------------------------ declarations
 
-/-- what `_parse_field_type` makes of a declarator text: pointer depth, name, array dimensions (count texts, outermost
-    first; the empty text is `[]`), bit width -/
+/-- what `_parse_field_type` makes of a declarator text: pointer depth, name, array dimensions (count texts without the white
+    space around them, outermost first; the empty text is `[]`), bit width -/
 structure Declarator where
   ptr : Nat
   name : List Char
@@ -549,17 +549,19 @@ def ptrLoop : Nat → List Char → Nat → Nat × List Char
 
 def digitsToNat (ds : List Char) : Nat := ds.foldl (fun n c => 10 * n + (c.toNat - '0'.toNat)) 0
 
-/-- `_parse_field_type` without the type: the NAME pattern is matched against `name + ";"`.  The dimensions are applied
-    innermost (last) first, and an empty count on top of an array is refused — for the declarator's own dimensions that
-    is: an empty count anywhere but in the last position.  (An empty last count over a base type that is itself an array
-    is also refused, by the same test; that depends on resolution and is not in this model.) -/
+/-- `_parse_field_type` without the type: the NAME pattern is matched against `name + ";"`.  A dimension is recorded by its
+    count text without the white space around it (`count.strip() == ""` is the null-terminated dimension `[]`; otherwise the
+    text goes to `Expression`, whose tokenizer skips blanks).  The dimensions are applied innermost (last) first, and an empty
+    dimension on top of an array is refused — for the declarator's own dimensions that is: an empty dimension anywhere but
+    in the last position.  (An empty last dimension over a base type that is itself an array is also refused, by the same
+    test; that depends on resolution and is not in this model.) -/
 def parseDeclarator (text : List Char) : Except PErr Declarator :=
   match matchName isWs (text ++ [';']) with
   | none => .error .rematchAttribute
   | some (m, _, _) =>
     let (depth, nm) := ptrLoop (m.name.length + 1) m.name 0
     let dims := match m.count with
-      | some c => splitDims c
+      | some c => (splitDims c).map strip
       | none => []
     if dims.dropLast.any (·.isEmpty) then .error .depthRequired else
     .ok ⟨depth, strip nm, dims, m.bits.map digitsToNat⟩
